@@ -146,12 +146,11 @@ func runSeq(prop, tier string, sc *core.Scratch, ev *core.Evidence, rep *core.Re
 	}
 	mod, err := Generate(sc, moq, AllVariants())
 	if err != nil {
-		// moq refusing the run-time corpus is not this family's verdict
-		return 2, core.Infra("generating the run-time corpus failed: %v", err)
+		return corpusBroken(prop, rep, "moq fails on the run-time corpus", err.Error())
 	}
 	bin, out, err := mod.Build(false)
 	if err != nil {
-		return 2, core.Infra("the generated run-time corpus does not compile (C01's business, blocks %s):\n%s", prop, core.Tail(out, 30))
+		return corpusBroken(prop, rep, "the generated mocks of the run-time corpus do not compile", out)
 	}
 	maxLen2, maxLen1 := 2, 3
 	if tier == "thorough" {
@@ -272,6 +271,16 @@ func runSeq(prop, tier string, sc *core.Scratch, ev *core.Evidence, rep *core.Re
 		return 2, err
 	}
 	violations += tv
+	if prop == "C03" {
+		// "with the very same argument values": also when other goroutines call the same method
+		code, err := runConcOn(prop, tier, sc, ev, rep, mod)
+		if err != nil || code == 2 {
+			return code, err
+		}
+		if code == 1 {
+			violations++
+		}
+	}
 	ev.Set("rule", "a case is one (mock variant, method mapping) pair on which every complete history TLC enumerates from MockSeq is replayed; distinct by that pair")
 	ev.Set("exhaustive", true)
 	ev.Set("history_counts", fmt.Sprint(histCount))
